@@ -370,21 +370,31 @@ def matrix_pivot(m, sign=False):
     mp = deepcopy(m)
     n = len(mp)
     p = [list(row) for row in matrix_identity(n)]  # permutation matrix (a copy: matrix_identity is memoised)
+    # The pivot of column j has to be chosen among the entries that the elimination of the columns before it leaves
+    # behind (partial pivoting); choosing it from the original column can leave a zero pivot for the LU decomposition
+    # of the row-permuted matrix although M is non-singular. The elimination runs on a working copy.
+    work = [[float(val) for val in row] for row in mp]
     num_rowswap = 0
     for j in range(0, n):
         row = j
         a_max = 0.0
         for i in range(j, n):
-            a_abs = abs(mp[i][j])
+            a_abs = abs(work[i][j])
             if a_abs > a_max:
                 a_max = a_abs
                 row = i
         if j != row:
             num_rowswap += 1
+            work[j], work[row] = work[row], work[j]
             for q in range(0, n):
                 # Swap rows
                 p[j][q], p[row][q] = p[row][q], p[j][q]
                 mp[j][q], mp[row][q] = mp[row][q], mp[j][q]
+        if work[j][j] != 0.0:
+            for i in range(j + 1, n):
+                factor = work[i][j] / work[j][j]
+                for q in range(j, n):
+                    work[i][q] -= factor * work[j][q]
     if sign:
         return mp, p, math.pow(-1, num_rowswap)
     return mp, p
